@@ -75,6 +75,75 @@ func (r *Run) ExecTx(tx *Tx) *TxResult {
 		if res.Panic != nil || res.Code != 0 {
 			res.OK = false
 		}
+	case "sim":
+		// F-simulate: the transaction is only handed to the node's Simulate service (no signature needed, any signer
+		// - also the governance authority); whatever its handlers do must leave no trace. Reported to the monitors as
+		// a refused transaction.
+		res.Simulated = true
+		bz, err := c.BuildSimTx(msgs)
+		if err != nil {
+			res.BuildErr = err.Error()
+			r.Stats.Inc("tx.unbuildable")
+			break
+		}
+		sres, err, pi := c.SimulateTx(bz)
+		r.Stats.Inc("fault.simulated_tx")
+		res.Code = 1
+		switch {
+		case pi != nil:
+			res.Panic = pi
+			res.Log = "simulated: " + pi.Value
+		case err != nil:
+			res.Log = "simulated: " + err.Error()
+			if IsErrPanic("", 0, res.Log) {
+				res.Panic = &PanicInfo{Where: "Simulate(recovered by baseapp)", Value: firstLine(err.Error()), Stack: err.Error()}
+			}
+		default:
+			_ = sres
+			res.Log = "simulated: handlers succeeded (state discarded)"
+			r.Stats.Inc("fault.simulated_tx_handlers_succeeded")
+		}
+	case "atomic":
+		r.Stats.Inc("tx.atomic")
+		evs, err, pi := c.DirectAtomic(msgs)
+		r.currentBlockTxBytes = append(r.currentBlockTxBytes, deliveredTx{atomic: msgs})
+		switch {
+		case pi != nil:
+			res.Panic = pi
+			res.Log = pi.Value
+		case err != nil:
+			res.Log = err.Error()
+			res.Code = 1
+			if cs, code, _ := errABCI(err); code != 0 {
+				res.Codespace, res.Code = cs, code
+			}
+		default:
+			res.Events = evs
+			res.OK = true
+		}
+	case "srv":
+		r.Stats.Inc("tx.msgserver")
+		for _, msg := range msgs {
+			err, pi := c.DirectSrv(msg)
+			r.currentBlockTxBytes = append(r.currentBlockTxBytes, deliveredTx{srv: msg})
+			if pi != nil {
+				res.Panic = pi
+				res.Log = pi.Value
+				break
+			}
+			if err != nil {
+				res.Log = err.Error()
+				res.Code = 1
+				if cs, code, _ := errABCI(err); code != 0 {
+					res.Codespace, res.Code = cs, code
+				}
+				break
+			}
+			res.OK = true
+		}
+		if res.Panic != nil || res.Code != 0 {
+			res.OK = false
+		}
 	case "direct":
 		r.Stats.Inc("tx.direct")
 		for _, msg := range msgs {
@@ -142,7 +211,9 @@ func (r *Run) ExecTx(tx *Tx) *TxResult {
 			r.Stats.Inc("fault.tx_stale_sequence")
 		}
 	}
-	if res.OK {
+	if res.Simulated {
+		// neither accepted nor rejected: it was never delivered
+	} else if res.OK {
 		r.Stats.Inc("tx.ok")
 	} else {
 		r.Stats.Inc("tx.rejected")
